@@ -156,6 +156,18 @@ def run_job(job: dict) -> dict:
                     snaps.append([(copy.deepcopy(a.position), a.cost, a.fitness) for a in self._population])
             Snap.__name__ = cls.__name__
             cls = Snap
+        init_log = None
+        if job.get("trace_init"):
+            init_log = set()
+            _base = cls
+
+            class Traced(_base):        # trace conformance: every agent ever reported must be (field-equal to) a product of _init_agent
+                def _init_agent(self, *a, **k):
+                    ag = super()._init_agent(*a, **k)
+                    init_log.add((repr(ag.position), repr(ag.cost)))
+                    return ag
+            Traced.__name__ = _base.__name__
+            cls = Traced
         if job.get("first_cfg") is not None:                      # earlier runs under another configuration, then reconfigure
             fc = dict(job["first_cfg"])
             while True:                                        # drop perturbed parameters the config validators reject
@@ -204,6 +216,16 @@ def run_job(job: dict) -> dict:
         obs["best"] = None if res.best_solution is None else (res.best_solution.position, res.best_solution.cost, res.best_solution.fitness)
         obs["config_after"] = cfg.model_dump()
         obs["task_after"] = task_view(task)
+        if init_log is not None:
+            mm_ = job["task"].get("minmax", "min")
+            bad_ = []
+            for g_, p_ in enumerate(res.evolution):
+                for a_ in p_.agents:
+                    internal = a_.cost if mm_ == "min" else -a_.cost
+                    if (repr(a_.position), repr(internal)) not in init_log and (repr(a_.position), repr(float(internal))) not in init_log:
+                        bad_.append((g_, a_.position, a_.cost)); break
+                if bad_: break
+            obs["untraced_agents"] = bad_
         if snaps is not None:
             obs["snapshots"] = snaps
         if job.get("trends"):
